@@ -21,4 +21,17 @@ def y06L : List C06.Xml → List Xml
   | e :: r => y06 e :: y06L r
 end
 
+
+/-- (ns, local) → `{ns}local`; no namespace → the bare tag -/
+def clarkOf (q : QName) : Str := if q.ns.isEmpty then q.name else C06.Xml.clark q.ns q.name
+
+mutual
+/-- a C14 tree as C06 / C07 see it (attributes are not part of their tree type) -/
+def z06 : Xml → C06.Xml
+  | .node t _ x k => .node (clarkOf t) x (z06L k)
+def z06L : List Xml → List C06.Xml
+  | [] => []
+  | e :: r => z06 e :: z06L r
+end
+
 end Upnp.C14
